@@ -478,7 +478,8 @@ struct Fmt
 };
 const std::vector<Fmt>& formats()
 {
-  static std::vector<Fmt> F = {{"fmt.CSV", "Db"}, {"fmt.Zycor", "DbGrid"}, {"fmt.IfpEn", "DbGrid"}, {"fmt.Bmp", "DbGrid"}};
+  // fmt.F2G has a reader only: its valid images are written by the harness after the reader's grammar (C09 only)
+  static std::vector<Fmt> F = {{"fmt.CSV", "Db"}, {"fmt.Zycor", "DbGrid"}, {"fmt.IfpEn", "DbGrid"}, {"fmt.Bmp", "DbGrid"}, {"fmt.F2G", "DbGrid"}};
   return F;
 }
 const Fmt* findFmt(const std::string& n)
@@ -517,6 +518,27 @@ bool fmtMake(const Fmt& f, const Op& op, std::unique_ptr<Db>& orig, std::string&
     CSVformat fmt = csvFormatOf(op.I(0));
     if (db_write_csv(orig.get(), p.c_str(), fmt, 1, 1, false) != 0) return false;
   }
+  else if (f.name == "fmt.F2G")
+  {
+    int ndim = 1 + (int)r.below(3), ncol = 1 + (int)r.below(2);
+    int nn[3] = {1, 1, 1};
+    std::ostringstream t;
+    t << "F2G_DIM " << ndim << "\nF2G_VERSION 1\nF2G_LOCATION " << r.range(-50, 50) << ". " << r.range(-50, 50) << ". 0.\nF2G_ROTATION " << (r.chance(0.5) ? 0 : r.range(1, 80)) << ".\nF2G_ORIGIN";
+    for (int d = 0; d < ndim; d++) t << " 0.";
+    t << "\nF2G_NB_NODES";
+    for (int d = 0; d < ndim; d++) { nn[d] = 2 + (int)r.below(4); t << " " << nn[d]; }
+    t << "\nF2G_LAGS";
+    for (int d = 0; d < ndim; d++) t << " " << (1 + r.below(3)) << ".5";
+    t << "\nF2G_ORDER +Y +X +Z\nF2G_NB_VARIABLES " << ncol << "\n";
+    for (int v = 0; v < ncol; v++) t << "F2G_VARIABLE_" << (v + 1) << " var" << (v + 1) << "\nF2G_UNDEFINED_" << (v + 1) << " -999\n";
+    t << "F2G_VALUES\n";
+    int ntot = nn[0] * nn[1] * nn[2] * ncol;
+    for (int i = 0; i < ntot; i++) { if (r.chance(0.1)) t << "-999"; else t << (double)r.range(-500, 500) / 10.; t << ((i % 6 == 5) ? "\n" : " "); }
+    t << "\n";
+    bytes = t.str();
+    orig.reset(DbGrid::create({nn[0], nn[1]}));
+    return true;
+  }
   else
   {
     int nx = 2 + (int)r.below(5), ny = 2 + (int)r.below(4);
@@ -539,6 +561,7 @@ Db* fmtLoad(const Fmt& f, const Op& op, const std::string& path)
 {
   if (f.name == "fmt.CSV") return Db::createFromCSV(path, csvFormatOf(op.I(0)), false);
   if (f.name == "fmt.Zycor") return db_grid_read_zycor(path.c_str(), 0);
+  if (f.name == "fmt.F2G") return db_grid_read_f2g(path.c_str(), 0);
   if (f.name == "fmt.IfpEn") return db_grid_read_ifpen(path.c_str(), 0);
   return db_grid_read_bmp(path.c_str(), 0);
 }
